@@ -113,6 +113,11 @@ func (e *emitter) emit(cfg *lib.Config, res *lib.Result, pool *Pool) {
 	undecoded := 0
 	for i, in := range e.inputs {
 		o := obs[i]
+		if o.Class == "skipped" {
+			// not run (hangs earlier in this run, reported by the direct check): nothing observed to compare
+			res.Count("corr.class.skipped")
+			continue
+		}
 		if o.Class == "ok" && o.Term == "" {
 			undecoded++
 		}
